@@ -122,6 +122,15 @@ func configs(vers uint16, scen string) (*tls.Config, *tls.Config) {
 		cc.CipherSuites = []uint16{tls.TLS_ECDHE_ECDSA_WITH_AES_128_CBC_SHA}
 		sc.CipherSuites = cc.CipherSuites
 	}
+	if strings.HasPrefix(scen, "reneg-") {
+		// the client under test accepts the peer's HelloRequest and starts a second handshake from inside Read
+		cc.Renegotiation = tls.RenegotiateFreelyAsClient
+		// a stapled OCSP response: Conn.ocspResponse is one of the fields a renegotiation rewrites
+		// (the peer certificates are not: the client insists on an unchanged server certificate)
+		certs := append([]tls.Certificate(nil), sc.Certificates...)
+		certs[0].OCSPStaple = []byte("c34 stapled ocsp response")
+		sc.Certificates = certs
+	}
 	if scen == "ticket-read-write-state" {
 		// the server sends a NewSessionTicket after its Finished; the client processes it inside its first Read
 		sc.SessionTicketsDisabled = false
@@ -132,6 +141,7 @@ func configs(vers uint16, scen string) (*tls.Config, *tls.Config) {
 
 // env of one execution. c = connection under test, s = its peer (each on its own end of the pipe).
 type env struct {
+	scen   string
 	c, s   *tls.Conn
 	sp     *vsched.PipeConn // the peer's transport (closing it = the peer vanishing without close_notify)
 	cc, sc *tls.Config
@@ -165,6 +175,76 @@ func peerReadAll(s *tls.Conn, o *obs) {
 	o.setPeer(b)
 	o.put("peer.read", errs(err))
 	s.Close()
+}
+
+// peerRenegotiate: the peer asks for a renegotiation (HelloRequest = handshake message type 0, empty body) and
+// then either serves the second handshake (serve = true: through an in-package scaffold, since zcrypto servers --
+// like crypto/tls ones -- do not implement renegotiation; afterwards it sends "pong" under the new keys) or just
+// reads on (serve = false: the server's Read refuses the client's new ClientHello with an alert). In both cases it
+// finally collects whatever application data the client wrote.
+func peerRenegotiate(x *env, serve bool) {
+	s, o := x.s, x.o
+	var prev []byte
+	if serve {
+		prev = x.c.VerifC34Finished()
+	}
+	_, err := s.WriteRecord(22, []byte{0, 0, 0, 0})
+	o.put("peer.hellorequest", errs(err))
+	if serve {
+		err := s.VerifC34ServeRenegotiation(prev)
+		o.put("peer.reneg", errs(err))
+		if err == nil {
+			_, err = s.Write([]byte("pong"))
+			o.put("peer.write", errs(err))
+		}
+	}
+	b, err := io.ReadAll(s)
+	o.setPeer(b)
+	o.put("peer.read", errs(err))
+	s.Close()
+}
+
+func renegRead(c *tls.Conn, o *obs) {
+	buf := make([]byte, 4) // "pong"; at TLS 1.0 it comes in two records (1/n-1 split)
+	n, err := io.ReadFull(c, buf)
+	o.put("read", fmt.Sprintf("%d/%s/%s", n, buf[:n], errs(err)))
+}
+
+func renegReadState(x *env) {
+	c, s, o := x.c, x.s, x.o
+	if !handshakeQuietly(c, s, o) {
+		return
+	}
+	var wg, pw vsched.WaitGroup
+	served := strings.HasPrefix(x.scen, "reneg-served-")
+	spawn(&pw, func() { peerRenegotiate(x, served) })
+	spawn(&wg, func() { renegRead(c, o) })
+	spawn(&wg, func() {
+		st := c.ConnectionState()
+		o.put("state", fmt.Sprintf("complete=%v vers=%x resumed=%v name=%q certs=%d", st.HandshakeComplete, st.Version, st.DidResume, st.ServerName, len(st.PeerCertificates)))
+		o.put("verifyhostname", errs(c.VerifyHostname("srv.example")))
+		o.put("ocsp", fmt.Sprintf("%d bytes", len(c.OCSPResponse())))
+	})
+	wg.Wait()
+	st := c.ConnectionState()
+	o.put("final", fmt.Sprintf("complete=%v vers=%x certs=%d", st.HandshakeComplete, st.Version, len(st.PeerCertificates)))
+	o.put("close", errs(c.Close()))
+	pw.Wait()
+}
+
+func renegReadWrite(x *env) {
+	c, s, o := x.c, x.s, x.o
+	if !handshakeQuietly(c, s, o) {
+		return
+	}
+	var wg, pw vsched.WaitGroup
+	served := strings.HasPrefix(x.scen, "reneg-served-")
+	spawn(&pw, func() { peerRenegotiate(x, served) })
+	spawn(&wg, func() { renegRead(c, o) })
+	spawn(&wg, func() { _, err := c.Write(payA); o.put("writeA", errs(err)) })
+	wg.Wait()
+	o.put("close", errs(c.Close()))
+	pw.Wait()
 }
 
 var scenarios = map[string]scenFn{
@@ -553,6 +633,19 @@ var scenarios = map[string]scenFn{
 		c.Close()
 		pw.Wait()
 	},
+	// ---- renegotiation (TLS <= 1.2, client under test, Renegotiation = RenegotiateFreelyAsClient) ----
+	// The peer sends a HelloRequest after the first handshake: the client's Read takes the handshake mutex again,
+	// resets the handshake status and rewrites connection state (didResume, serverName, ...) while it sends its new
+	// ClientHello. The zcrypto server (like crypto/tls) refuses a renegotiation ClientHello with an alert, so the
+	// second handshake fails: every call must still return, and the getters must not race with the rewrite.
+
+	// S22: Read (which renegotiates) racing with the handshake-state getters; refused / served by the peer.
+	"reneg-read-state":        renegReadState,
+	"reneg-served-read-state": renegReadState,
+	// S23: Read (which renegotiates) racing with Write: the Write goes out whole (before the new ClientHello, or
+	// after the second handshake under the new keys), or fails.
+	"reneg-read-write":        renegReadWrite,
+	"reneg-served-read-write": renegReadWrite,
 	// S21 (TLS 1.3, tickets enabled): the NewSessionTicket the server sent after its Finished is processed
 	// inside the client's Read, concurrently with Write and ConnectionState.
 	"ticket-read-write-state": func(x *env) {
@@ -587,7 +680,7 @@ func runOnce(j job, prefix []int) (vsched.Result, *obs) {
 		cp, sp, n := vsched.NewPipe()
 		n.ShortReads = j.EB > 0
 		cc, sc := configs(j.Vers, j.Scen)
-		x := &env{cc: cc, sc: sc, sp: sp, o: o}
+		x := &env{scen: j.Scen, cc: cc, sc: sc, sp: sp, o: o}
 		if j.Role == "server" {
 			x.c, x.s = tls.Server(cp, sc), tls.Client(sp, cc)
 		} else {
@@ -798,6 +891,55 @@ func judge(j job, res vsched.Result, o *obs) (string, string) {
 		}
 		if g("writeA") != "nil" || !bytes.Equal(o.peer, payA) {
 			return "a Write under an unexpired write deadline did not arrive intact", fmt.Sprintf("%s %q", g("writeA"), o.peer)
+		}
+	case "reneg-read-state", "reneg-read-write", "reneg-served-read-state", "reneg-served-read-write":
+		if g("peer.hellorequest") != "nil" {
+			return "setup: the peer could not send its HelloRequest", g("peer.hellorequest")
+		}
+		// (that every call DOES come back is the deadlock / livelock / "body did not finish" verdict above)
+		served := strings.HasPrefix(j.Scen, "reneg-served-")
+		stateOnly := strings.HasSuffix(j.Scen, "-read-state")
+		r := g("read")
+		switch {
+		case served && g("peer.reneg") == "nil":
+			// the second handshake went through on the peer's side: the data it sent afterwards, under the new keys, must arrive
+			if r != "4/pong/nil" {
+				return "Read did not deliver the data the peer sent after the renegotiation it had completed", r
+			}
+		case served && stateOnly:
+			// nothing but getters ran beside the renegotiating Read: the second handshake has no reason to fail
+			return "a renegotiation served by the peer failed although only Read and state getters were running", g("peer.reneg") + " / read " + r
+		default:
+			// refused (or broken off by application data that reached the peer before the ClientHello): the peer never
+			// wrote application data, Read comes back with an error
+			if !strings.HasPrefix(r, "0//") || r == "0//nil" {
+				return "Read returned data or no error although the renegotiation attempt did not go through", r
+			}
+		}
+		if stateOnly {
+			for _, k := range []string{"state", "final"} {
+				if st := g(k); !strings.Contains(st, fmt.Sprintf("vers=%x ", j.Vers)) || strings.Contains(st, "certs=0") {
+					return "ConnectionState around a renegotiation lost the negotiated version or the peer certificates", k + ": " + st
+				}
+			}
+			if served && !strings.Contains(g("final"), "complete=true") {
+				return "handshake not complete after a renegotiation that the peer completed", g("final")
+			}
+		} else {
+			w := g("writeA")
+			switch {
+			case served && g("peer.reneg") != "nil":
+				// application data reached the scaffold server while it was waiting for the ClientHello: it gives up with
+				// an internal error and delivers only what it had already decrypted, so its view of the stream ends
+				// early (at TLS 1.0 possibly after the 1-byte record): what it did get must be an authentic prefix
+				if !bytes.HasPrefix(payA, o.peer) {
+					return "peer received altered application data", fmt.Sprintf("%q", o.peer)
+				}
+			case w == "nil" && !bytes.Equal(o.peer, payA):
+				return "Write returned nil but the peer did not receive the payload intact", fmt.Sprintf("%q", o.peer)
+			case w != "nil" && !cutOK(j, o.peer, payA):
+				return "peer received a partial or altered payload", fmt.Sprintf("%q", o.peer)
+			}
 		}
 	case "ticket-read-write-state":
 		if g("read") != "pong/nil" {
@@ -1068,13 +1210,36 @@ func jobsFor(thorough, race bool) []job {
 		out = append(out, job{Scen: "write-write-big", Vers: tls.VersionTLS10, PB: pbFor("write-write-big"), Race: race})
 		out = append(out, job{Scen: "write-close", Vers: tls.VersionTLS10, PB: pbFor("write-write-big"), Race: race})
 	}
+	// renegotiation exists up to TLS 1.2 only and only the client accepts a HelloRequest: TLS 1.2 and TLS 1.0 (CBC),
+	// client end under test; the second handshake is explored (not quiet): bound 1 (thorough 2), race pass 1
+	for _, v := range []uint16{tls.VersionTLS12, tls.VersionTLS10} {
+		for _, n := range []string{"reneg-read-state", "reneg-read-write", "reneg-served-read-state", "reneg-served-read-write"} {
+			pb := 1
+			if thorough && !race && !strings.Contains(n, "-served-") {
+				pb = 2 // (a served renegotiation is a whole second handshake: > 10^5 schedules at bound 2)
+			}
+			if race && !thorough {
+				// quick race pass (an execution costs 5-7 ms under ThreadSanitizer): the getter scenarios, where the
+				// races would be, at bound 1 (served: TLS 1.2 only); Read||Write at TLS 1.2, the served one at bound 0
+				served, state := strings.Contains(n, "-served-"), strings.HasSuffix(n, "-read-state")
+				if v == tls.VersionTLS10 && !(state && !served) {
+					continue
+				}
+				if served && !state {
+					pb = 0
+				}
+			}
+			out = append(out, job{Scen: n, Vers: v, PB: pb, Race: race})
+		}
+	}
 	// longest first, so that the long jobs do not start last (weights from measured run times of the quick tier:
 	// the race build is dominated by the cost of an execution under ThreadSanitizer, the normal build by the number of schedules)
 	heavy := map[string]int{"keyupdate-read-write": 9, "fresh-write-read-state": 9, "handshake-handshake-state": 8, "write-write": 7,
 		"read-read": 6, "write-close": 6, "read-close": 6, "read-write": 5, "ticket-read-write-state": 5, "closewrite-write-state": 4, "write-write-big": 4}
 	if race {
 		heavy = map[string]int{"ticket-read-write-state": 9, "write-write-big": 9, "closewrite-write-state": 8, "keyupdate-read-write": 6,
-			"deadlines-read": 6, "write-write": 5, "close-close": 4, "fresh-write-read-state": 4}
+			"deadlines-read": 6, "write-write": 5, "close-close": 4, "fresh-write-read-state": 4,
+			"reneg-served-read-state": 7, "reneg-read-write": 3, "reneg-read-state": 3}
 	}
 	weight := func(j job) int { return heavy[j.Scen] }
 	sort.SliceStable(out, func(a, b int) bool { return weight(out[a]) > weight(out[b]) })
@@ -1103,12 +1268,14 @@ func main() {
 			"Scenarios (each at TLS 1.2 and 1.3 unless noted; PB in the quick tier in brackets, thorough +1): after a quiet handshake: write||write [2], read||write [2], read||close [2], write||close [2], read||SetDeadline [2], CloseWrite||write||ConnectionState [1], peer KeyUpdate during read||write (1.3) [2], read||read [2], " +
 			"peer Close (close_notify) during pending read||write [1], peer transport dropped without close_notify during pending read||write [1], 20000-byte write (several records) || short write [1], write||write at TLS 1.0 with a CBC suite (1/n-1 record split) [1], close||close [1], CloseWrite||read then peer data (half-close) [1], SetDeadline||write [1], SetReadDeadline||SetWriteDeadline||read [1], NewSessionTicket processing inside read||write||ConnectionState (1.3, tickets enabled) [1]; " +
 			"on a FRESH connection (the handshake itself is explored, the peer handshakes on its own thread): handshake||handshake||ConnectionState [1], write||read||ConnectionState with implicit handshakes [1; thorough stays at 1 and adds read||write at 2], write||close [1], close||handshake [1]. " +
+			"RENEGOTIATION (TLS 1.2 and TLS 1.0/CBC, client under test with Renegotiation=RenegotiateFreelyAsClient, OCSP staple so that the second handshake rewrites Conn.ocspResponse besides version, suite, didResume, serverName, finished values, keys): the peer sends a HelloRequest after the first handshake and the client's Read runs the second handshake (explored, not quiet) while another thread runs {ConnectionState, VerifyHostname, OCSPResponse} or Write; once with the peer REFUSING the new ClientHello (what zcrypto and crypto/tls servers do: alert), once with the peer SERVING the renegotiation through an in-package scaffold (RFC 5746 3.7 server side) and sending data under the new keys afterwards [1, thorough 2 for the refused ones]. " +
 			"The connection under test is the client end; write||close (fresh), peer-close, big write and close||close are repeated with the SERVER end under test (thorough: also fresh write||read||state, read||write, read||close, peer drop, CloseWrite||read). Thorough additionally offers 1-byte transport reads as an environment deviation for the scenarios with a quiet handshake. " +
-			"Race pass: PB 1 (0 for the fresh-connection scenarios), thorough +1. Oracle per execution: no panic, no deadlock, no livelock (step horizon), every call returns, each writer's bytes arrive contiguous, unmodified and exactly once (or not at all when the write was cut by a close), readers get whole records, a pending read/write returns once the peer closed or the deadline expired. A worker process that dies with a Go runtime fatal error / unrecovered panic in the code under test is a violation (worker crash), not an incomplete run. states = executions.")
+			"Race pass: PB 1 (0 for the fresh-connection scenarios), thorough +1. Oracle per execution: no panic, no deadlock, no livelock (step horizon), every call returns, each writer's bytes arrive contiguous, unmodified and exactly once (or not at all when the write was cut by a close), readers get whole records, a pending read/write returns once the peer closed or the deadline expired; renegotiation: a refused attempt ends Read with an error, a served one completes and the data sent after it arrives, a Write beside it arrives whole (before the ClientHello or under the new keys) or fails. A worker process that dies with a Go runtime fatal error / unrecovered panic in the code under test is a violation (worker crash), not an incomplete run. states = executions.")
 		c.Assume("package tls is compiled from copies whose sync and sync/atomic imports point to the vsched shims; no other source change",
 			"the initial handshake of the scenarios that are not about a fresh connection is run without exploring its choice points",
 			"the scheduler hand-off is invisible to ThreadSanitizer, so a race report concerns only the program's own synchronisation",
 			"HandshakeContext with a cancellable context (interrupter goroutine + select) is outside the scheduler model and not explored",
+			"renegotiation: the serving peer is test scaffolding compiled into package tls (_inpkg: serverHandshake's full-handshake steps plus the RFC 5746 renegotiation_info, previous verify_data handed over from the client end); it is the peer, not code under test; when application data reaches it before the ClientHello it gives up, and its view of the stream is then only required to be an authentic prefix",
 			"the model transport never blocks a write and has no write deadline: SetWriteDeadline/SetDeadline are explored for races and for their effect on reads only",
 			"a loop in the code under test that contains no scheduling point cannot be interrupted by the cooperative scheduler: it ends as a killed worker (incomplete), not as a verdict")
 		self, _ := os.Executable()
